@@ -128,11 +128,27 @@ def translate(components):
 
 # ------------------------------------------------------------------------------------------
 # Coq
+def coq_project_files():
+    """Every .v file of the development (pins/ and extract/ are compiled separately)."""
+    files = []
+    for d, _, fs in os.walk(COQ):
+        rel = os.path.relpath(d, COQ)
+        if rel.split(os.sep)[0] in ('pins', 'extract', 'audit'):
+            continue
+        for f in fs:
+            if f.endswith('.v') and not f.startswith('.'):
+                files.append(os.path.normpath(os.path.join(rel, f)))
+    return sorted(files)
+
+
 def coq_makefile():
+    """_CoqProject is generated from the directory listing, so adding a file needs no shared edit."""
     with Lock('coq'):
-        mk = os.path.join(COQ, 'Makefile.coq')
         proj = os.path.join(COQ, '_CoqProject')
-        if not os.path.exists(mk) or os.path.getmtime(mk) < os.path.getmtime(proj):
+        text = '-Q . SH\n-arg -w -arg -notation-overridden,-deprecated-hint-without-locality,-deprecated-instance-without-locality\n' + '\n'.join(coq_project_files()) + '\n'
+        changed = write_if_changed(proj, text)
+        mk = os.path.join(COQ, 'Makefile.coq')
+        if changed or not os.path.exists(mk):
             sh('coq_makefile -f _CoqProject -o Makefile.coq', cwd=COQ, check=True)
 
 
